@@ -391,7 +391,7 @@ func genWireToken(c *choice.Ctx, p int, variant int) *wireToken {
 	}
 	{
 		ok := []string{ean13p5}
-		bad := []string{"x", "", ean13p5 + "\n", " " + ean13p5, "1234567890123-1234", "123456789012３-12345"}
+		bad := []string{"x", "", ean13p5 + "\n", " " + ean13p5, "1234567890123-1234", "123456789012３-12345", "12345678901٣-12345", "1234567890123-123٥", "1234567890３-12345", "12345678901٣", "1234567890３"}
 		if p == 1 {
 			ok = append(ok, ean13)
 		} else {
